@@ -376,8 +376,15 @@ class BoboDecider(BoboEngineTask,
                         runremote.run_id)
 
                 if runlocal is not None:
-                    # If run exists, update its internal state...
-                    if runremote.block_index > runlocal.block_index:
+                    # If run exists, update its internal state if the remote
+                    # run is ahead: either further along the pattern, or at
+                    # the same (looping) block with more accepted events
+                    if (
+                            runremote.block_index > runlocal.block_index or (
+                            runremote.block_index == runlocal.block_index and
+                            runremote.history.size() >
+                            runlocal.history().size())
+                    ):
                         runlocal.set_block(
                             block_index=runremote.block_index,
                             history=runremote.history)
